@@ -541,6 +541,19 @@ func runC10R3(c *eng.Ctx, r *eng.RuleCtx) {
 				okRaw = all(false, isRaw)
 			}
 		}
+		if !(okConst && okRaw) {
+			// (D) the library form of the same thing: `eff = cmp.Or(raw, const)` (the first non-zero argument)
+			stores := storesOfField(info, f.Decl.Body, eff)
+			if len(stores) == 1 {
+				if cl, isC := ast.Unparen(resolveLocal(info, f.Decl.Body, stores[0].Val)).(*ast.CallExpr); isC && eng.IsPkgFunc(eng.CalleeOf(info, cl), "cmp", "Or") && len(cl.Args) == 2 {
+					sx, isS := ast.Unparen(cl.Args[0]).(*ast.SelectorExpr)
+					v, isK := eng.ConstStr(info, cl.Args[1])
+					if isS && sx.Sel.Name == s.rawField && !eng.IsField(info, cl.Args[0], eff) && isK && v == s.constVal {
+						okConst, okRaw = true, true
+					}
+				}
+			}
+		}
 		r.Check(okConst && okRaw, fmt.Sprintf("%s %s.%s", f.Key, s.effType, s.field), f.Decl.Pos(), fmt.Sprintf("%q when the raw %s is empty, the raw value otherwise", s.constVal, s.rawField), fmt.Sprintf("the default of %s.%s is not %q-iff-empty", s.effType, s.field, s.constVal))
 	}
 	// boolean flags
